@@ -497,7 +497,7 @@ func (n *Node) AggregateCommit(h uint32, kind string, signers []int) *blockchain
 	}
 	cert := certificate.NewCertificateFromBlock(hdr)
 	// validator keys of the parameter set at height h, ascending by BLS key (the order verification uses)
-	p := n.paramsAt(h)
+	p := n.ParamsAt(h)
 	type kv struct {
 		id  int
 		key []byte
@@ -534,8 +534,8 @@ func (n *Node) AggregateCommit(h uint32, kind string, signers []int) *blockchain
 	return ac
 }
 
-// paramsAt: parameter set in force AT height h (set by a block below h).
-func (n *Node) paramsAt(h uint32) ParamSet {
+// ParamsAt: parameter set in force AT height h (set by a block below h).
+func (n *Node) ParamsAt(h uint32) ParamSet {
 	p := n.Cfg.Init
 	for x := uint32(1); x < h; x++ {
 		b, err := n.Chain.DataAccess().GetBlockByHeight(x)
